@@ -22,6 +22,8 @@ FINDINGS = {
                                 "key leaves the old value (save d {k0:v0}; save d {k0:v1} reads back k0=v0)",
     "C27-stale-keys-kept": "hydrex.Save keeps keys that are no longer in the saved items",
     "C27-destroy-leaves-index": "hydrex.Destroy does not remove the domain from the index swamps of its keys",
+    "C27-invalid-key-save-ignored": "a Save that carries an empty key or a key containing '/' is refused as a whole and only logged: Hydrex.Save has no "
+                                    "error return, so the caller sees success while GetCoreData keeps the previous items",
     "C27-empty-key-save-ignored": "a Save whose items contain the empty key reports ok but stores nothing: the core CatalogSaveMany fails on the "
                                   "empty key and the gateway rejects the index request (swamp name with an empty part); GetCoreData stays empty",
     "C27-key-with-separator-not-indexed": "a Save whose items contain a key with '/' stores the core data but writes NO index entry of that Save "
@@ -29,6 +31,9 @@ FINDINGS = {
                                           "the error): GetIndexData never lists the domain, also for the clean keys saved in the same call",
     "C27-index-inconsistent": "GetIndexData does not return exactly the domains whose core data holds the key",
 }
+
+
+_VALIDATES = False
 
 
 def _norm(tok):
@@ -40,6 +45,8 @@ def _norm(tok):
 
 
 def _hostile_id(toks):
+    if _VALIDATES and ("x" in toks or any(_norm(t) != t for t in toks)):
+        return "C27-invalid-key-save-ignored"
     if "x" in toks:
         return "C27-empty-key-save-ignored"
     if any(_norm(t) != t for t in toks):
@@ -82,7 +89,9 @@ def spec_violated(rep):
 
 
 def run(ctx):
+    global _VALIDATES
     facts, _, _ = U.extract_facts(ctx)
+    _VALIDATES = facts.get("validatesKeys") == "yes"
     K.lean_verdict(ctx)
     corrs = U.run_corr(ctx, "C27", facts)
     K.decide_standard(ctx, corrs, FINDINGS)
